@@ -291,7 +291,9 @@ for (nm, fn, tier, tmo) in [('l6', 'ref_new_l6', 'quick', 3600), ('l7n', 'ref_ne
 
 # ------------------------------------------------------------------ C11 (sequential model: merge tree and pool initialisation)
 TREEF = ['src/merge_ska_dict.rs::build_and_merge', 'src/merge_ska_dict.rs::parallel_append', 'src/merge_ska_dict.rs::multi_append', MD + 'merge', MD + 'append']
-for (n, t, tier, tmo) in [(3, 1, 'quick', 1800), (3, 4, 'quick', 1800), (10, 1, 'thorough', 3600), (10, 2, 'thorough', 3600), (11, 16, 'thorough', 3600), (20, 4, 'thorough', 7200), (30, 4, 'thorough', 10800), (30, 16, 'thorough', 10800)]:
+# (tree_n11_t16, tree_n20_t4, tree_n30_t4, tree_n30_t16 did not finish in 60 min -- cloning of 11..30 sample names dominates --
+#  and are not registered; merge depth >= 1 with a non-zero offset is covered at small size by C11.tree.offset)
+for (n, t, tier, tmo) in [(3, 1, 'quick', 1800), (3, 4, 'quick', 1800), (10, 1, 'thorough', 3600), (10, 2, 'thorough', 5400)]:
     ob('C11.tree.n%d.t%d' % (n, t), ['C11'], 'merge_ska_dict/tree', 'tree_n%d_t%d' % (n, t), tier=tier, functions=TREEF, inst='u64', needs_parts=['merge_ska_dict/common', 'ska_dict/acc'],
        caps={'MCAP': 2, 'SCAP': 1, 'RCAP': 1, 'CCAP': 1}, models=['hashbrown', 'rayon (sequential join, pool flag)', 'indicatif'], stubs=['SkaDict::new -> dictionary provider: one symbolic (k-mer, base) entry per sample (environment stub)'],
        sym='%d samples, each with one k-mer of a 2-key universe and a symbolic base; strand mode; threads = %d' % (n, t), oracle='names in input order; every key vector = the serial table (own base in own column, 0 elsewhere)',
@@ -325,3 +327,11 @@ ob('C11.tree.offset', ['C11'], 'merge_ska_dict/tree', 'parallel_append_depth2_of
    sym='4 samples that are samples 2..6 of a 6-sample build, one k-mer of a 2-key universe and a symbolic base each; strand mode; recursion depth 2 with offset 2',
    oracle='every sample lands in its own column and name slot (the situation of merge depth >= 3, i.e. >= 70 files with >= 8 threads, reproduced at small size)', bounds='4 of 6 samples, depth 2, offset 2', timeout=3600, mem_gb=32, mem_expect_gb=12)
 
+
+# ------------------------------------------------------------------ C12.glue (add_file_kmers on reads)
+for (n, m, tier) in [(2, 2, 'quick')]:
+    ob('C12.glue.n%d.m%d' % (n, m), ['C12'], 'ska_dict/reads', 'reads_glue_n%d_m%d' % (n, m), tier=tier, functions=[SD + 'new', SD + 'add_file_kmers', SD + 'add_to_dict', BF + 'filter', BF + 'bloom_add_and_check'] + WINF + [SK + 'middle_base_qual', SK + 'valid_qual'] + NTF,
+       inst='u64', needs_parts=['ska_dict/acc', 'split_kmer/common'], caps={'MCAP': 2, 'SCAP': 1, 'RCAP': 1, 'CCAP': 1}, models=['needletail (in-memory FASTQ records)', 'hashbrown'],
+       stubs=['KmerFilter::init -> 4-word Bloom buffer (environment stub)', 'core::str::from_utf8 -> unchecked (kani::stub)'],
+       sym='%d copies of one read of 6 symbolic bases, symbolic middle-base qualities per copy, strand mode; min-count %d, min-qual 20, middle rule; the two k-mers of the read assumed to fall into different Bloom blocks' % (n, m),
+       oracle='each split k-mer included exactly when seen min-count times with a passing middle base', bounds='k=5, one FASTQ file, %d reads of 6 bases' % n, timeout=5400, mem_gb=32, mem_expect_gb=14)
